@@ -1695,7 +1695,7 @@ theorem C01_gadget_count_binary_partial (res : Var) (args : List Var) (B : Bnds)
   have hv : (gCount res args B n).vars = [] := by rw [hg]
   exact ⟨fun y hd _ h => (key y hd).mp h, fun x hd h => realizable_self hv ((key x hd).mpr h)⟩
 
-/-! ## max / min: the convex direction (`res ≥ max`, `res ≤ min`) -/
+/-! ## max / min: order lemmas -/
 
 theorem maxL_le_iff (x : Asg) (a : Var) (t : List Var) (r : Rat) :
     maxL x a t ≤ r ↔ ∀ b ∈ a :: t, x b ≤ r := by
@@ -1754,42 +1754,602 @@ theorem le_minL_iff (x : Asg) (a : Var) (t : List Var) (r : Rat) :
         · exact h c (by simp [hc])
       · intro h c hc; exact h c (by simp [hc])
 
-/-- `MaxConverter_MIP` in negative context (`res ≥ max(args)`): one row per argument.
-The non-convex direction (flags + indicators) is modelled and correspondence-checked, not proved. -/
-theorem C01_gadget_max_neg_partial (res a : Var) (t : List Var) (B : Bnds) (n : Nat) :
-    Exact (gMax res (a :: t) .neg B n) n (fun _ => True)
-      (fun x => rel .neg (x res) (Fun.val x (.max (a :: t)))) := by
-  have hg : gMax res (a :: t) .neg B n = mmConvex 1 res (a :: t) := by
-    simp [gMax, dispatch, needNeg, needPos, Ctx.eff, Ctx.hasNeg, Ctx.hasPos, mmConvex]
-  have key : ∀ x : Asg, (∀ c ∈ (gMax res (a :: t) .neg B n).cons, c.sat x) ↔
-      rel .neg (x res) (Fun.val x (.max (a :: t))) := by
-    intro x
-    rw [hg]
-    simp only [rel, req, Ctx.eff, Fun.val, maxL_le_iff, mmConvex, List.mem_map, forall_exists_index, and_imp,
-      forall_apply_eq_imp_iff₂, Con.sat, Cmp.holds, evalLin_cons, evalLin_nil]
-    constructor
-    · intro h b hb; have := h b hb; grind
-    · intro h b hb; have := h b hb; grind
-  have hv : (gMax res (a :: t) .neg B n).vars = [] := by rw [hg]; rfl
-  exact ⟨fun y _ _ h => (key y).mp h, fun x _ h => realizable_self hv ((key x).mpr h)⟩
 
-/-- `MinConverter_MIP` in positive context (`res ≤ min(args)`) -/
-theorem C01_gadget_min_pos_partial (res a : Var) (t : List Var) (B : Bnds) (n : Nat) :
-    Exact (gMin res (a :: t) .pos B n) n (fun _ => True)
-      (fun x => rel .pos (x res) (Fun.val x (.min (a :: t)))) := by
-  have hg : gMin res (a :: t) .pos B n = mmConvex (-1) res (a :: t) := by
-    simp [gMin, dispatch, needNeg, needPos, Ctx.eff, Ctx.hasNeg, Ctx.hasPos, mmConvex]
-  have key : ∀ x : Asg, (∀ c ∈ (gMin res (a :: t) .pos B n).cons, c.sat x) ↔
-      rel .pos (x res) (Fun.val x (.min (a :: t))) := by
-    intro x
-    rw [hg]
-    simp only [rel, req, Ctx.eff, Fun.val, le_minL_iff, mmConvex, List.mem_map, forall_exists_index, and_imp,
-      forall_apply_eq_imp_iff₂, Con.sat, Cmp.holds, evalLin_cons, evalLin_nil]
+
+/-! ## numberof with a constant reference value -/
+
+/-- the reified comparisons `flag_i = (a_i == k)` emitted for the arguments, flags numbered from `n` -/
+def nocCons (k : Rat) : Nat → List Var → List Con
+  | _, [] => []
+  | n, a :: t => Con.func n .none (.condLin .eq [(1, a)] k) :: nocCons k (n + 1) t
+
+theorem nocCons_eq (k : Rat) (n : Nat) (args : List Var) :
+    ((List.zip (List.range' n args.length) args).map fun (f, a) => Con.func f .none (.condLin .eq [(1, a)] k))
+      = nocCons k n args := by
+  induction args generalizing n with
+  | nil => rfl
+  | cons a t ih =>
+    simp only [List.length_cons, List.range'_succ, List.zip_cons_cons, List.map_cons, nocCons]
+    rw [ih (n + 1)]
+
+theorem condEq1_val (y : Asg) (a : Var) (k : Rat) :
+    Fun.val y (.condLin .eq [(1, a)] k) = (if y a = k then 1 else 0) := by
+  show b2r (Cmp5.eq.holds (evalLin y [(1, a)]) k) = _
+  unfold b2r
+  by_cases e : y a = k
+  · have h : Cmp5.eq.holds (evalLin y [(1, a)]) k := by simp [Cmp5.holds]; grind
+    rw [if_pos h, if_pos e]
+  · have h : ¬ Cmp5.eq.holds (evalLin y [(1, a)]) k := by simp [Cmp5.holds]; grind
+    rw [if_neg h, if_neg e]
+
+theorem noc_sound (k : Rat) (n : Nat) (args : List Var) (y : Asg) (h : ∀ c ∈ nocCons k n args, c.sat y) :
+    evalLin y (ones (List.range' n args.length)) = countP (fun a => y a == k) args := by
+  induction args generalizing n with
+  | nil => rfl
+  | cons a t ih =>
+    have h0 := h (Con.func n .none (.condLin .eq [(1, a)] k)) (by simp [nocCons])
+    have ht := ih (n + 1) (fun c hc => h c (by simp [nocCons, hc]))
+    simp only [List.length_cons, List.range'_succ, ones_cons, evalLin_cons, countP, ht]
+    simp only [Con.sat, rel, req, Ctx.eff, condEq1_val] at h0
+    rw [h0]
+    by_cases e : y a = k <;> simp [e] <;> grind
+
+theorem noc_complete (k : Rat) (n0 : Nat) (args : List Var) (hargs : ∀ a ∈ args, a < n0) :
+    ∀ (n : Nat) (x : Asg), n0 ≤ n →
+      ∃ x' : Asg, (∀ v, v < n → x' v = x v) ∧ (∀ c ∈ nocCons k n args, c.sat x') ∧
+        auxOk n x' (args.map fun _ => VarInfo.binary) := by
+  induction args with
+  | nil => intro n x _; exact ⟨x, fun _ _ => rfl, by simp [nocCons], by simp [auxOk]⟩
+  | cons a t ih =>
+    intro n x hn
+    have ha : (a : Nat) < n0 := hargs a (by simp)
+    have k1 : n0 ≤ n + 1 := by omega
+    have k2 : n < n + 1 := by omega
+    have k3 : a < n + 1 := Nat.lt_succ_of_lt (Nat.lt_of_lt_of_le ha hn)
+    have k4 : a ≠ n := Nat.ne_of_lt (Nat.lt_of_lt_of_le ha hn)
+    obtain ⟨x', hag, hcs, hax⟩ := ih (fun b hb => hargs b (by simp [hb])) (n + 1)
+      (fun v => if v = n then (if x a = k then 1 else 0) else x v) k1
+    have en : x' n = (if x a = k then 1 else 0) := by rw [hag n k2]; simp
+    have ea : x' a = x a := by rw [hag a k3]; simp [k4]
+    refine ⟨x', ?_, ?_, ?_⟩
+    · intro v hv
+      have q1 : v < n + 1 := by omega
+      have q2 : v ≠ n := by omega
+      rw [hag v q1]; simp [q2]
+    · intro c hc
+      simp only [nocCons, List.mem_cons] at hc
+      rcases hc with hc | hc
+      · subst hc
+        simp only [Con.sat, rel, req, Ctx.eff, condEq1_val, en, ea]
+      · exact hcs c hc
+    · simp only [List.map_cons, auxOk]
+      refine ⟨?_, hax⟩
+      rw [en]; apply admits_binary_of; split <;> simp
+
+theorem countEq_agree (k : Rat) (n : Nat) (args : List Var) (x x' : Asg) (hag : ∀ v, v < n → x' v = x v)
+    (hargs : ∀ a ∈ args, a < n) : countP (fun a => x' a == k) args = countP (fun a => x a == k) args := by
+  induction args with
+  | nil => rfl
+  | cons a t ih =>
+    simp only [countP, hag a (hargs a (by simp)), ih (fun b hb => hargs b (by simp [hb]))]
+
+/-- `NumberofConstConverter_MIP`: fresh reified comparisons `flag_i = (a_i == k)` and `Σ flag_i = res`.
+(Inputs where the preprocessing of `a_i == k` takes a shortcut are outside the model: `unmodelled`.) -/
+theorem C01_gadget_numberof_const (res : Var) (k : Rat) (args : List Var) (B : Bnds) (n : Nat)
+    (hr : res < n) (hargs : ∀ a ∈ args, a < n) :
+    Exact (gNumberofConst res k args B n) n (fun _ => True)
+      (fun x => x res = Fun.val x (.numberofConst k args)) := by
+  have hcons : (gNumberofConst res k args B n).cons
+      = nocCons k n args ++ [.linRhs .eq (ones (List.range' n args.length) ++ [(-1, res)]) 0] := by
+    simp only [gNumberofConst]; rw [nocCons_eq]
+  constructor
+  · intro y _ _ hc
+    rw [hcons] at hc
+    have s1 := noc_sound k n args y (fun c h => hc c (by simp [h]))
+    have s2 := hc (.linRhs .eq (ones (List.range' n args.length) ++ [(-1, res)]) 0) (by simp)
+    simp only [Con.sat, Cmp.holds, evalLin_append, evalLin_cons, evalLin_nil, s1] at s2
+    simp only [Fun.val]; grind
+  · intro x _ h
+    obtain ⟨x', hag, hcs, hax⟩ := noc_complete k n args hargs n x (Nat.le_refl n)
+    refine ⟨x', hag, ?_, ?_⟩
+    · simpa [gNumberofConst] using hax
+    · rw [hcons]
+      intro c hc
+      simp only [List.mem_append, List.mem_singleton] at hc
+      rcases hc with hc | hc
+      · exact hcs c hc
+      · subst hc
+        have s1 := noc_sound k n args x' hcs
+        have ec := countEq_agree k n args x x' hag hargs
+        simp only [Con.sat, Cmp.holds, evalLin_append, evalLin_cons, evalLin_nil, s1, ec, hag res hr]
+        simp only [Fun.val] at h; grind
+
+
+
+/-! ## numberof with a variable reference value -/
+
+def novCons (ref : Var) : Nat → List Var → List Con
+  | _, [] => []
+  | n, a :: t => Con.func n .none (.condLin .eq [(1, a), (-1, ref)] 0) :: novCons ref (n + 1) t
+
+theorem novCons_eq (ref : Var) (n : Nat) (args : List Var) :
+    ((List.zip (List.range' n args.length) args).map fun (f, a) =>
+        Con.func f .none (.condLin .eq [(1, a), (-1, ref)] 0))
+      = novCons ref n args := by
+  induction args generalizing n with
+  | nil => rfl
+  | cons a t ih =>
+    simp only [List.length_cons, List.range'_succ, List.zip_cons_cons, List.map_cons, novCons]
+    rw [ih (n + 1)]
+
+theorem condEq2_val (y : Asg) (a ref : Var) :
+    Fun.val y (.condLin .eq [(1, a), (-1, ref)] 0) = (if y a = y ref then 1 else 0) := by
+  show b2r (Cmp5.eq.holds (evalLin y [(1, a), (-1, ref)]) 0) = _
+  unfold b2r
+  by_cases e : y a = y ref
+  · have h : Cmp5.eq.holds (evalLin y [(1, a), (-1, ref)]) 0 := by simp [Cmp5.holds]; grind
+    rw [if_pos h, if_pos e]
+  · have h : ¬ Cmp5.eq.holds (evalLin y [(1, a), (-1, ref)]) 0 := by simp [Cmp5.holds]; grind
+    rw [if_neg h, if_neg e]
+
+theorem nov_sound (ref : Var) (n : Nat) (args : List Var) (y : Asg) (h : ∀ c ∈ novCons ref n args, c.sat y) :
+    evalLin y (ones (List.range' n args.length)) = countP (fun a => y a == y ref) args := by
+  induction args generalizing n with
+  | nil => rfl
+  | cons a t ih =>
+    have h0 := h (Con.func n .none (.condLin .eq [(1, a), (-1, ref)] 0)) (by simp [novCons])
+    have ht := ih (n + 1) (fun c hc => h c (by simp [novCons, hc]))
+    simp only [List.length_cons, List.range'_succ, ones_cons, evalLin_cons, countP, ht]
+    simp only [Con.sat, rel, req, Ctx.eff, condEq2_val] at h0
+    rw [h0]
+    by_cases e : y a = y ref <;> simp [e] <;> grind
+
+theorem nov_complete (ref : Var) (n0 : Nat) (hrf : ref < n0) (args : List Var) (hargs : ∀ a ∈ args, a < n0) :
+    ∀ (n : Nat) (x : Asg), n0 ≤ n →
+      ∃ x' : Asg, (∀ v, v < n → x' v = x v) ∧ (∀ c ∈ novCons ref n args, c.sat x') ∧
+        auxOk n x' (args.map fun _ => VarInfo.binary) := by
+  induction args with
+  | nil => intro n x _; exact ⟨x, fun _ _ => rfl, by simp [novCons], by simp [auxOk]⟩
+  | cons a t ih =>
+    intro n x hn
+    have ha : (a : Nat) < n0 := hargs a (by simp)
+    have k1 : n0 ≤ n + 1 := by omega
+    have k2 : n < n + 1 := by omega
+    have k3 : a < n + 1 := Nat.lt_succ_of_lt (Nat.lt_of_lt_of_le ha hn)
+    have k4 : a ≠ n := Nat.ne_of_lt (Nat.lt_of_lt_of_le ha hn)
+    have k5 : ref < n + 1 := Nat.lt_succ_of_lt (Nat.lt_of_lt_of_le hrf hn)
+    have k6 : ref ≠ n := Nat.ne_of_lt (Nat.lt_of_lt_of_le hrf hn)
+    obtain ⟨x', hag, hcs, hax⟩ := ih (fun b hb => hargs b (by simp [hb])) (n + 1)
+      (fun v => if v = n then (if x a = x ref then 1 else 0) else x v) k1
+    have en : x' n = (if x a = x ref then 1 else 0) := by rw [hag n k2]; simp
+    have ea : x' a = x a := by rw [hag a k3]; simp [k4]
+    have er : x' ref = x ref := by rw [hag ref k5]; simp [k6]
+    refine ⟨x', ?_, ?_, ?_⟩
+    · intro v hv
+      have q1 : v < n + 1 := by omega
+      have q2 : v ≠ n := by omega
+      rw [hag v q1]; simp [q2]
+    · intro c hc
+      simp only [novCons, List.mem_cons] at hc
+      rcases hc with hc | hc
+      · subst hc
+        simp only [Con.sat, rel, req, Ctx.eff, condEq2_val, en, ea, er]
+      · exact hcs c hc
+    · simp only [List.map_cons, auxOk]
+      refine ⟨?_, hax⟩
+      rw [en]; apply admits_binary_of; split <;> simp
+
+theorem countEqV_agree (ref : Var) (n : Nat) (args : List Var) (x x' : Asg) (hag : ∀ v, v < n → x' v = x v)
+    (hrf : ref < n) (hargs : ∀ a ∈ args, a < n) :
+    countP (fun a => x' a == x' ref) args = countP (fun a => x a == x ref) args := by
+  induction args with
+  | nil => rfl
+  | cons a t ih =>
+    have iht := ih (fun b hb => hargs b (by simp [hb]))
+    simp only [countP, hag a (hargs a (by simp)), iht]
+    rw [hag ref hrf]
+
+/-- `NumberofVarConverter_MIP`: `flag_i = (a_i - ref == 0)`, `-res + Σ flag_i = 0` -/
+theorem C01_gadget_numberof_var (res ref : Var) (args : List Var) (B : Bnds) (n : Nat)
+    (hr : res < n) (hrf : ref < n) (hargs : ∀ a ∈ args, a < n) :
+    Exact (gNumberofVar res ref args B n) n (fun _ => True)
+      (fun x => x res = Fun.val x (.numberofVar ref args)) := by
+  have hcons : (gNumberofVar res ref args B n).cons
+      = novCons ref n args ++ [.linRhs .eq ((-1, res) :: ones (List.range' n args.length)) 0] := by
+    simp only [gNumberofVar]; rw [novCons_eq]
+  constructor
+  · intro y _ _ hc
+    rw [hcons] at hc
+    have s1 := nov_sound ref n args y (fun c h => hc c (by simp [h]))
+    have s2 := hc (.linRhs .eq ((-1, res) :: ones (List.range' n args.length)) 0) (by simp)
+    simp only [Con.sat, Cmp.holds, evalLin_cons, s1] at s2
+    simp only [Fun.val]; grind
+  · intro x _ h
+    obtain ⟨x', hag, hcs, hax⟩ := nov_complete ref n hrf args hargs n x (Nat.le_refl n)
+    refine ⟨x', hag, ?_, ?_⟩
+    · simpa [gNumberofVar] using hax
+    · rw [hcons]
+      intro c hc
+      simp only [List.mem_append, List.mem_singleton] at hc
+      rcases hc with hc | hc
+      · exact hcs c hc
+      · subst hc
+        have s1 := nov_sound ref n args x' hcs
+        have ec := countEqV_agree ref n args x x' hag hrf hargs
+        simp only [Con.sat, Cmp.holds, evalLin_cons, s1, ec, hag res hr]
+        simp only [Fun.val] at h; grind
+
+
+
+/-! ## max / min: the non-convex direction (`res ≤ max`, `res ≥ min`) with one binary flag per argument -/
+
+def mmInd (s : Rat) (res : Var) : Nat → List Var → List Con
+  | _, [] => []
+  | n, a :: t => Con.indLin n 1 .le [(1 * s, res), (-1 * s, a)] 0 :: mmInd s res (n + 1) t
+
+theorem mmInd_eq (s : Rat) (res : Var) (n : Nat) (args : List Var) :
+    ((List.zip (List.range' n args.length) args).map fun (f, a) =>
+        Con.indLin f 1 .le [(1 * s, res), (-1 * s, a)] 0) = mmInd s res n args := by
+  induction args generalizing n with
+  | nil => rfl
+  | cons a t ih =>
+    simp only [List.length_cons, List.range'_succ, List.zip_cons_cons, List.map_cons, mmInd]
+    rw [ih (n + 1)]
+
+theorem mm_cons (s : Rat) (res : Var) (args : List Var) (n : Nat) :
+    (mmNonConvex s res args n).cons
+      = .linRhs .ge (ones (List.range' n args.length)) 1 :: mmInd s res n args := by
+  simp only [mmNonConvex]; rw [mmInd_eq]
+
+/-- some flag is 1 ⇒ the corresponding argument bounds `res` -/
+theorem mm_sound (s : Rat) (res : Var) (n : Nat) (args : List Var) (y : Asg)
+    (h : ∀ c ∈ mmInd s res n args, c.sat y)
+    (hf : ∃ f ∈ List.range' n args.length, y f = 1) :
+    ∃ a ∈ args, s * y res ≤ s * y a := by
+  induction args generalizing n with
+  | nil => simp at hf
+  | cons a t ih =>
+    obtain ⟨f, hfm, hf1⟩ := hf
+    simp only [List.length_cons, List.range'_succ, List.mem_cons] at hfm
+    rcases hfm with hfm | hfm
+    · subst hfm
+      have h0 := h (Con.indLin f 1 .le [(1 * s, res), (-1 * s, a)] 0) (by simp [mmInd])
+      simp only [Con.sat, Cmp.holds, evalLin_cons, evalLin_nil] at h0
+      have := h0 (by rw [hf1]; simp)
+      exact ⟨a, by simp, by grind⟩
+    · obtain ⟨b, hb, hle⟩ := ih (n + 1) (fun c hc => h c (by simp [mmInd, hc])) ⟨f, hfm, hf1⟩
+      exact ⟨b, by simp [hb], hle⟩
+
+theorem ones_zero (y : Asg) (l : List Var) (h : ∀ f ∈ l, y f = 0) : evalLin y (ones l) = 0 := by
+  induction l with
+  | nil => rfl
+  | cons f t ih =>
+    simp only [ones_cons, evalLin_cons, h f (by simp), ih (fun g hg => h g (by simp [hg]))]; grind
+
+/-- all flags from `n` on set to zero: every indicator row is vacuous -/
+theorem mm_zero (s : Rat) (res : Var) (n0 : Nat) (hres : res < n0) (args : List Var) (hargs : ∀ a ∈ args, a < n0)
+    (n : Nat) (hn : n0 ≤ n) (x' : Asg) (hz : ∀ v, n ≤ v → x' v = 0) :
+    (∀ c ∈ mmInd s res n args, c.sat x') ∧ auxOk n x' (args.map fun _ => VarInfo.binary) := by
+  induction args generalizing n with
+  | nil => simp [mmInd, auxOk]
+  | cons a t ih =>
+    have k1 : n0 ≤ n + 1 := by omega
+    have iht := ih (fun b hb => hargs b (by simp [hb])) (n + 1) k1 (fun v hv => hz v (by omega))
     constructor
-    · intro h b hb; have := h b hb; grind
-    · intro h b hb; have := h b hb; grind
-  have hv : (gMin res (a :: t) .pos B n).vars = [] := by rw [hg]; rfl
-  exact ⟨fun y _ _ h => (key y).mp h, fun x _ h => realizable_self hv ((key x).mpr h)⟩
+    · intro c hc
+      simp only [mmInd, List.mem_cons] at hc
+      rcases hc with hc | hc
+      · subst hc
+        simp only [Con.sat]
+        intro h1; rw [hz n (Nat.le_refl n)] at h1; exact absurd h1 (by simp)
+      · exact iht.1 c hc
+    · simp only [List.map_cons, auxOk]
+      exact ⟨by rw [hz n (Nat.le_refl n)]; exact admits_binary_of (Or.inl rfl), iht.2⟩
+
+theorem mm_complete (s : Rat) (res : Var) (n0 : Nat) (hres : res < n0) (args : List Var)
+    (hargs : ∀ a ∈ args, a < n0) :
+    ∀ (n : Nat) (x : Asg), n0 ≤ n → (∃ a ∈ args, s * x res ≤ s * x a) →
+      ∃ x' : Asg, (∀ v, v < n → x' v = x v) ∧ (∀ c ∈ mmInd s res n args, c.sat x') ∧
+        auxOk n x' (args.map fun _ => VarInfo.binary) ∧ 1 ≤ evalLin x' (ones (List.range' n args.length)) := by
+  induction args with
+  | nil => intro n x _ h; simp at h
+  | cons a t ih =>
+    intro n x hn hex
+    have ha : (a : Nat) < n0 := hargs a (by simp)
+    have k1 : n0 ≤ n + 1 := by omega
+    have k2 : n < n + 1 := by omega
+    have ka : a ≠ n := Nat.ne_of_lt (Nat.lt_of_lt_of_le ha hn)
+    have kr : res ≠ n := Nat.ne_of_lt (Nat.lt_of_lt_of_le hres hn)
+    by_cases hhead : s * x res ≤ s * x a
+    · -- choose the head: flag n = 1, all later flags 0
+      have hx'z : ∀ v, n + 1 ≤ v → (fun v => if v = n then (1 : Rat) else if n < v then 0 else x v) v = 0 := by
+        intro v hv
+        have q1 : v ≠ n := by omega
+        have q2 : n < v := by omega
+        simp [q1, q2]
+      have zt := mm_zero s res n0 hres t (fun b hb => hargs b (by simp [hb])) (n + 1) k1 _ hx'z
+      refine ⟨fun v => if v = n then (1 : Rat) else if n < v then 0 else x v, ?_, ?_, ?_, ?_⟩
+      · intro v hv
+        have q1 : v ≠ n := by omega
+        have q2 : ¬ n < v := by omega
+        simp [q1, q2]
+      · intro c hc
+        simp only [mmInd, List.mem_cons] at hc
+        rcases hc with hc | hc
+        · subst hc
+          have q3 : ¬ n < a := Nat.lt_asymm (Nat.lt_of_lt_of_le ha hn)
+          have q4 : ¬ n < res := Nat.lt_asymm (Nat.lt_of_lt_of_le hres hn)
+          simp only [Con.sat, Cmp.holds, evalLin_cons, evalLin_nil, ka, kr, q3, q4, if_false]
+          intro _; grind
+        · exact zt.1 c hc
+      · simp only [List.map_cons, auxOk, if_true]
+        exact ⟨admits_binary_of (Or.inr rfl), zt.2⟩
+      · simp only [List.length_cons, List.range'_succ, ones_cons, evalLin_cons, if_true]
+        have := ones_zero (fun v => if v = n then (1 : Rat) else if n < v then 0 else x v)
+          (List.range' (n + 1) t.length) (by
+            intro f hf
+            have : n + 1 ≤ f := by simp [List.mem_range'] at hf; omega
+            exact hx'z f this)
+        rw [this]; grind
+    · -- the witness is in the tail: flag n = 0
+      have hex' : ∃ b ∈ t, s * x res ≤ s * x b := by
+        obtain ⟨b, hb, hle⟩ := hex
+        simp only [List.mem_cons] at hb
+        rcases hb with hb | hb
+        · subst hb; exact absurd hle hhead
+        · exact ⟨b, hb, hle⟩
+      have hex1 : ∃ b ∈ t, s * (fun v => if v = n then (0 : Rat) else x v) res
+          ≤ s * (fun v => if v = n then (0 : Rat) else x v) b := by
+        obtain ⟨b, hb, hle⟩ := hex'
+        have hbn : (b : Nat) < n0 := hargs b (by simp [hb])
+        have kb : b ≠ n := Nat.ne_of_lt (Nat.lt_of_lt_of_le hbn hn)
+        exact ⟨b, hb, by simp [kr, kb]; exact hle⟩
+      obtain ⟨x', hag, hcs, hax, hsum⟩ := ih (fun b hb => hargs b (by simp [hb])) (n + 1)
+        (fun v => if v = n then (0 : Rat) else x v) k1 hex1
+      have en : x' n = 0 := by rw [hag n k2]; simp
+      refine ⟨x', ?_, ?_, ?_, ?_⟩
+      · intro v hv
+        have q1 : v < n + 1 := by omega
+        have q2 : v ≠ n := by omega
+        rw [hag v q1]; simp [q2]
+      · intro c hc
+        simp only [mmInd, List.mem_cons] at hc
+        rcases hc with hc | hc
+        · subst hc
+          simp only [Con.sat]
+          intro h1; rw [en] at h1; exact absurd h1 (by simp)
+        · exact hcs c hc
+      · simp only [List.map_cons, auxOk]
+        exact ⟨by rw [en]; exact admits_binary_of (Or.inl rfl), hax⟩
+      · simp only [List.length_cons, List.range'_succ, ones_cons, evalLin_cons, en]; grind
+
+
+theorem le_maxL_iff (x : Asg) (a : Var) (t : List Var) (r : Rat) :
+    r ≤ maxL x a t ↔ ∃ b ∈ a :: t, r ≤ x b := by
+  induction t generalizing a with
+  | nil => simp [maxL]
+  | cons b t ih =>
+    simp only [maxL]
+    split
+    · rename_i hle
+      rw [ih b]
+      constructor
+      · intro ⟨c, hc, h⟩; exact ⟨c, by simp [List.mem_cons] at hc ⊢; exact Or.inr hc, h⟩
+      · intro ⟨c, hc, h⟩
+        simp only [List.mem_cons] at hc
+        rcases hc with hc | hc
+        · subst hc
+          have : r ≤ maxL x b t := by grind
+          exact (ih b).mp this
+        · exact ⟨c, by simp [List.mem_cons]; exact hc, h⟩
+    · rename_i hnle
+      constructor
+      · intro h; exact ⟨a, by simp, h⟩
+      · intro ⟨c, hc, h⟩
+        simp only [List.mem_cons] at hc
+        rcases hc with hc | hc
+        · subst hc; exact h
+        · have : r ≤ maxL x b t := (ih b).mpr ⟨c, by simp [List.mem_cons]; exact hc, h⟩
+          grind
+
+theorem minL_le_iff (x : Asg) (a : Var) (t : List Var) (r : Rat) :
+    minL x a t ≤ r ↔ ∃ b ∈ a :: t, x b ≤ r := by
+  induction t generalizing a with
+  | nil => simp [minL]
+  | cons b t ih =>
+    simp only [minL]
+    split
+    · rename_i hle
+      constructor
+      · intro h; exact ⟨a, by simp, h⟩
+      · intro ⟨c, hc, h⟩
+        simp only [List.mem_cons] at hc
+        rcases hc with hc | hc
+        · subst hc; exact h
+        · have : minL x b t ≤ r := (ih b).mpr ⟨c, by simp [List.mem_cons]; exact hc, h⟩
+          grind
+    · rename_i hnle
+      rw [ih b]
+      constructor
+      · intro ⟨c, hc, h⟩; exact ⟨c, by simp [List.mem_cons] at hc ⊢; exact Or.inr hc, h⟩
+      · intro ⟨c, hc, h⟩
+        simp only [List.mem_cons] at hc
+        rcases hc with hc | hc
+        · subst hc
+          have : minL x b t ≤ r := by grind
+          exact (ih b).mp this
+        · exact ⟨c, by simp [List.mem_cons]; exact hc, h⟩
+
+theorem auxOk_binary (n : Nat) (y : Asg) (l : List Var) (h : auxOk n y (l.map fun _ => VarInfo.binary)) :
+    ∀ f ∈ List.range' n l.length, y f = 0 ∨ y f = 1 := by
+  induction l generalizing n with
+  | nil => simp
+  | cons a t ih =>
+    simp only [List.map_cons, auxOk] at h
+    intro f hf
+    simp only [List.length_cons, List.range'_succ, List.mem_cons] at hf
+    rcases hf with hf | hf
+    · subst hf; exact binary_admits h.1
+    · exact ih (n + 1) h.2 f hf
+
+theorem flag_exists (n : Nat) (y : Asg) (l : List Var) (hb : ∀ f ∈ List.range' n l.length, y f = 0 ∨ y f = 1)
+    (hs : 1 ≤ evalLin y (ones (List.range' n l.length))) : ∃ f ∈ List.range' n l.length, y f = 1 := by
+  cases hany : (List.range' n l.length).any (fun f => y f == 1)
+  · have := sum_bin_none y _ hb hany
+    rw [this] at hs; exact absurd hs (by grind)
+  · obtain ⟨f, hf, h1⟩ := List.any_eq_true.mp hany
+    exact ⟨f, hf, by simpa using h1⟩
+
+theorem mmConvex_iff (s : Rat) (res : Var) (args : List Var) (y : Asg) :
+    (∀ c ∈ (mmConvex s res args).cons, c.sat y) ↔ ∀ b ∈ args, s * y b ≤ s * y res := by
+  simp only [mmConvex, List.mem_map, forall_exists_index, and_imp, forall_apply_eq_imp_iff₂, Con.sat, Cmp.holds,
+    evalLin_cons, evalLin_nil]
+  constructor
+  · intro h b hb; have := h b hb; grind
+  · intro h b hb; have := h b hb; grind
+
+/-- numeric dispatch, auxiliaries only in the positive part -/
+theorem dispatch_num_pos (ctx : Ctx) (rv : VarInfo) (n : Nat) (oN : Out) (oPf : Nat → Out)
+    (hN0 : oN.refusal = none) (hNv : oN.vars = []) (hP0 : ∀ m, (oPf m).refusal = none) :
+    (dispatch ctx false rv n (fun _ => oN) oPf).vars = (if ctx.eff.hasPos = true then (oPf n).vars else []) ∧
+    (dispatch ctx false rv n (fun _ => oN) oPf).cons
+      = (if ctx.eff.hasNeg = true then oN.cons else []) ++ (if ctx.eff.hasPos = true then (oPf n).cons else []) := by
+  cases hn : ctx.eff.hasNeg <;> cases hp : ctx.eff.hasPos <;>
+    simp [dispatch, needNeg, needPos, hn, hp, hN0, hNv, hP0]
+
+/-- numeric dispatch, auxiliaries only in the negative part -/
+theorem dispatch_num_neg (ctx : Ctx) (rv : VarInfo) (n : Nat) (oNf : Nat → Out) (oP : Out)
+    (hN0 : ∀ m, (oNf m).refusal = none) (hP0 : oP.refusal = none) (hPv : oP.vars = []) :
+    (dispatch ctx false rv n oNf (fun _ => oP)).vars = (if ctx.eff.hasNeg = true then (oNf n).vars else []) ∧
+    (dispatch ctx false rv n oNf (fun _ => oP)).cons
+      = (if ctx.eff.hasNeg = true then (oNf n).cons else []) ++ (if ctx.eff.hasPos = true then oP.cons else []) := by
+  cases hn : ctx.eff.hasNeg <;> cases hp : ctx.eff.hasPos <;>
+    simp [dispatch, needNeg, needPos, hn, hp, hN0, hP0, hPv]
+
+/-- the non-convex part alone: sound -/
+theorem mmNonConvex_sound (s : Rat) (res : Var) (args : List Var) (n : Nat) (y : Asg)
+    (hax : auxOk n y (mmNonConvex s res args n).vars) (hc : ∀ c ∈ (mmNonConvex s res args n).cons, c.sat y) :
+    ∃ b ∈ args, s * y res ≤ s * y b := by
+  rw [mm_cons] at hc
+  have hsum := hc (.linRhs .ge (ones (List.range' n args.length)) 1) (by simp)
+  simp only [Con.sat, Cmp.holds] at hsum
+  have hvars : auxOk n y (args.map fun _ => VarInfo.binary) := by simpa [mmNonConvex] using hax
+  have hfl := flag_exists n y args (auxOk_binary n y args hvars) hsum
+  exact mm_sound s res n args y (fun c hcm => hc c (by simp [hcm])) hfl
+
+/-- the non-convex part alone: complete -/
+theorem mmNonConvex_complete (s : Rat) (res : Var) (args : List Var) (n : Nat) (x : Asg)
+    (hr : res < n) (hargs : ∀ b ∈ args, b < n) (h : ∃ b ∈ args, s * x res ≤ s * x b) :
+    ∃ x' : Asg, agree n x x' ∧ auxOk n x' (mmNonConvex s res args n).vars ∧
+      ∀ c ∈ (mmNonConvex s res args n).cons, c.sat x' := by
+  obtain ⟨x', hag, hcs, hax, hsum⟩ := mm_complete s res n hr args hargs n x (Nat.le_refl n) h
+  refine ⟨x', hag, by simpa [mmNonConvex] using hax, ?_⟩
+  rw [mm_cons]
+  intro c hc
+  simp only [List.mem_cons] at hc
+  rcases hc with hc | hc
+  · subst hc; simpa [Con.sat, Cmp.holds] using hsum
+  · exact hcs c hc
+
+/-- `MaxConverter_MIP`, every context: convex rows for `res ≥ max`, flags + indicators for `res ≤ max` -/
+theorem C01_gadget_max (res a : Var) (t : List Var) (ctx : Ctx) (B : Bnds) (n : Nat)
+    (hr : res < n) (hargs : ∀ b ∈ a :: t, b < n) :
+    Exact (gMax res (a :: t) ctx B n) n (fun _ => True)
+      (fun x => rel ctx (x res) (Fun.val x (.max (a :: t)))) := by
+  obtain ⟨dv, dc⟩ := dispatch_num_pos ctx (B res) n (mmConvex 1 res (a :: t)) (fun m => mmNonConvex 1 res (a :: t) m)
+    rfl rfl (fun _ => rfl)
+  constructor
+  · intro y _ haux hc
+    simp only [gMax] at haux hc
+    rw [dv] at haux; rw [dc] at hc
+    rw [rel_iff]; simp only [Fun.val]
+    constructor
+    · intro hp
+      simp only [hp, if_true] at haux hc
+      obtain ⟨b, hb, hle⟩ := mmNonConvex_sound 1 res (a :: t) n y haux (fun c hcm => hc c (by simp [hcm]))
+      exact (le_maxL_iff y a t _).mpr ⟨b, hb, by grind⟩
+    · intro hn
+      simp only [hn, if_true] at hc
+      have := (mmConvex_iff 1 res (a :: t) y).mp (fun c hcm => hc c (by simp [hcm]))
+      exact (maxL_le_iff y a t _).mpr (fun b hb => by have := this b hb; grind)
+  · intro x _ h
+    rw [rel_iff] at h; simp only [Fun.val] at h
+    simp only [Out.realizable, gMax]; rw [dv, dc]
+    have convex_at : ∀ x' : Asg, agree n x x' → ctx.eff.hasNeg = true →
+        ∀ c ∈ (mmConvex 1 res (a :: t)).cons, c.sat x' := by
+      intro x' hag hn
+      refine (mmConvex_iff 1 res (a :: t) x').mpr ?_
+      intro b' hb'
+      rw [hag b' (hargs b' hb'), hag res hr]
+      have := (maxL_le_iff x a t _).mp (h.2 hn) b' hb'
+      grind
+    by_cases hp : ctx.eff.hasPos = true
+    · obtain ⟨b, hb, hle⟩ := (le_maxL_iff x a t _).mp (h.1 hp)
+      obtain ⟨x', hag, hax, hcs⟩ := mmNonConvex_complete 1 res (a :: t) n x hr hargs ⟨b, hb, by grind⟩
+      refine ⟨x', hag, by simpa [hp] using hax, ?_⟩
+      intro c hc
+      simp only [hp, if_true, List.mem_append] at hc
+      rcases hc with hc | hc
+      · by_cases hn : ctx.eff.hasNeg = true
+        · simp only [hn, if_true] at hc; exact convex_at x' hag hn c hc
+        · simp [hn] at hc
+      · exact hcs c hc
+    · refine ⟨x, fun _ _ => rfl, by simp [hp, auxOk], ?_⟩
+      intro c hc
+      simp only [hp, Bool.false_eq_true, if_false, List.append_nil] at hc
+      by_cases hn : ctx.eff.hasNeg = true
+      · simp only [hn, if_true] at hc; exact convex_at x (fun _ _ => rfl) hn c hc
+      · simp [hn] at hc
+
+/-- `MinConverter_MIP`, every context: convex rows for `res ≤ min`, flags + indicators for `res ≥ min` -/
+theorem C01_gadget_min (res a : Var) (t : List Var) (ctx : Ctx) (B : Bnds) (n : Nat)
+    (hr : res < n) (hargs : ∀ b ∈ a :: t, b < n) :
+    Exact (gMin res (a :: t) ctx B n) n (fun _ => True)
+      (fun x => rel ctx (x res) (Fun.val x (.min (a :: t)))) := by
+  obtain ⟨dv, dc⟩ := dispatch_num_neg ctx (B res) n (fun m => mmNonConvex (-1) res (a :: t) m) (mmConvex (-1) res (a :: t))
+    (fun _ => rfl) rfl rfl
+  constructor
+  · intro y _ haux hc
+    simp only [gMin] at haux hc
+    rw [dv] at haux; rw [dc] at hc
+    rw [rel_iff]; simp only [Fun.val]
+    constructor
+    · intro hp
+      simp only [hp, if_true] at hc
+      have := (mmConvex_iff (-1) res (a :: t) y).mp (fun c hcm => hc c (by simp [hcm]))
+      exact (le_minL_iff y a t _).mpr (fun b hb => by have := this b hb; grind)
+    · intro hn
+      simp only [hn, if_true] at haux hc
+      obtain ⟨b, hb, hle⟩ := mmNonConvex_sound (-1) res (a :: t) n y haux (fun c hcm => hc c (by simp [hcm]))
+      exact (minL_le_iff y a t _).mpr ⟨b, hb, by grind⟩
+  · intro x _ h
+    rw [rel_iff] at h; simp only [Fun.val] at h
+    simp only [Out.realizable, gMin]; rw [dv, dc]
+    have convex_at : ∀ x' : Asg, agree n x x' → ctx.eff.hasPos = true →
+        ∀ c ∈ (mmConvex (-1) res (a :: t)).cons, c.sat x' := by
+      intro x' hag hp
+      refine (mmConvex_iff (-1) res (a :: t) x').mpr ?_
+      intro b' hb'
+      rw [hag b' (hargs b' hb'), hag res hr]
+      have := (le_minL_iff x a t _).mp (h.1 hp) b' hb'
+      grind
+    by_cases hn : ctx.eff.hasNeg = true
+    · obtain ⟨b, hb, hle⟩ := (minL_le_iff x a t _).mp (h.2 hn)
+      obtain ⟨x', hag, hax, hcs⟩ := mmNonConvex_complete (-1) res (a :: t) n x hr hargs ⟨b, hb, by grind⟩
+      refine ⟨x', hag, by simpa [hn] using hax, ?_⟩
+      intro c hc
+      simp only [hn, if_true, List.mem_append] at hc
+      rcases hc with hc | hc
+      · exact hcs c hc
+      · by_cases hp : ctx.eff.hasPos = true
+        · simp only [hp, if_true] at hc; exact convex_at x' hag hp c hc
+        · simp [hp] at hc
+    · refine ⟨x, fun _ _ => rfl, by simp [hn, auxOk], ?_⟩
+      intro c hc
+      simp only [hn, Bool.false_eq_true, if_false, List.nil_append] at hc
+      by_cases hp : ctx.eff.hasPos = true
+      · simp only [hp, if_true] at hc; exact convex_at x (fun _ _ => rfl) hp c hc
+      · simp [hp] at hc
 
 
 /-!
@@ -1809,7 +2369,7 @@ What is missing for the whole-model theorem:
   functional constraint nested once under a root linear range constraint; nesting depth > 1, shared subexpressions,
   several result variables in one body, logical roots and objectives are not covered;
 * gadgets not yet modelled: alldiff/unary encoding, complementarity, PL→SOS2, SOS2→ZZI, pow, general
-  products; modelled and correspondence-checked without theorem: min/max, count, numberof, implication with fixed result.
+  products; modelled and correspondence-checked without theorem: count with non-binary arguments, implication with fixed-true result.
 Until then whole-model equivalence is *validated per run* by checks/c01.py (projection-equivalence
 oracle on generated models), not proved.
 -/
